@@ -1,4 +1,6 @@
 import QRV.Props.C01
+import QRV.Lemmas.EncValid
+import QRV.Lemmas.EncFields
 /-
 C08 — encoders accept exactly the valid symbol descriptions and never panic.
 
@@ -14,7 +16,11 @@ def Bytes (q : QRCode) : Prop := ∀ s ∈ q.segments, ∀ b ∈ s.data, b < 256
 /-- QR: no value of Version, Level, Mask, no mode byte and no segment contents makes the encoder panic -/
 theorem qr_encode_no_panic (q : QRCode) (hb : Bytes q) (hm : ∀ s ∈ q.segments, s.mode < 256) :
     (Model.QR.encodeToBitmap q).isPanic = false := by
-  sorry
+  have _ := hm  -- not needed: the mode indicator is written masked to four bits
+  rcases Lemmas.Enc.encode_err_or_valid q hb with ⟨msg, he⟩ | hv
+  · rw [he]; rfl
+  · obtain ⟨img, _, h, _⟩ := C01.roundtrip_QR_any q hv
+    rw [h]; rfl
 
 /-- QR: every valid description is accepted -/
 theorem qr_valid_accepted (q : QRCode) (hv : QR.Valid q) : ∃ img, Model.QR.encodeToBitmap q = .ok img := by
@@ -25,7 +31,9 @@ theorem qr_valid_accepted (q : QRCode) (hv : QR.Valid q) : ∃ img, Model.QR.enc
 characters valid for the mode; character count representable; total length within capacity) -/
 theorem qr_accepted_valid (q : QRCode) (hb : Bytes q) (img : Bitmap.Image)
     (h : Model.QR.encodeToBitmap q = .ok img) : QR.Valid q := by
-  sorry
+  rcases Lemmas.Enc.encode_err_or_valid q hb with ⟨msg, he⟩ | hv
+  · rw [he] at h; cases h
+  · exact hv
 
 /-- QR: accepted exactly when valid -/
 theorem qr_encode_ok_iff_valid (q : QRCode) (hb : Bytes q) :
@@ -35,13 +43,13 @@ theorem qr_encode_ok_iff_valid (q : QRCode) (hb : Bytes q) :
 /-- Micro QR and rMQR: out-of-range Version / Level / Mask are answered with an error, not a panic -/
 theorem micro_invalid_fields_error (q : QRCode)
     (h : q.version < 1 ∨ q.version > 4 ∨ q.level < 0 ∨ q.level ≥ 4 ∨ q.mask < -1 ∨ q.mask ≥ 4) :
-    (Model.Micro.encodeToBitmap q).isErr = true := by
-  sorry
+    (Model.Micro.encodeToBitmap q).isErr = true :=
+  Lemmas.Enc.micro_invalid_fields_error q h
 
 theorem rmqr_invalid_fields_error (q : QRCode)
     (h : q.version < 0 ∨ q.version ≥ 32 ∨ q.level < 0 ∨ q.level ≥ 2) :
-    (Model.RMQR.encodeToBitmap q).isErr = true := by
-  sorry
+    (Model.RMQR.encodeToBitmap q).isErr = true :=
+  Lemmas.Enc.rmqr_invalid_fields_error q h
 
 /-! non-vacuity -/
 example : (Model.QR.encodeToBitmap { version := 0, level := 0, mask := 8, segments := [] }).isErr = true := by
